@@ -3,7 +3,7 @@ from __future__ import annotations
 
 import html
 
-from vf import core, corpus
+from vf import core, corpus, e4
 
 META = {
     "level": "exploration",
@@ -27,33 +27,41 @@ META = {
 TAINT = "<&>\"'"
 
 
+def relation_ok(off, on):
+    if isinstance(off, tuple) or isinstance(on, tuple):
+        return off == on
+    return html.unescape(on) == off
+
+
 def shard(arg):
     tier, k, n = arg
     p = core.Part()
     for it in corpus.items(tier, shard=(k, n)):
         value = TAINT if it.kind == "stmt" else None
-        outs = {}
-        for ae in (False, True):
-            env, gm, data = corpus.safe_make(it, env_kwargs={"autoescape": ae}, value=value)
-            if it.kind != "stmt":
-                # taint every plain string value of the data and the environment globals
-                data = {kk: (v + TAINT if isinstance(v, str) and not kk.startswith(("pv", "tv")) else v) for kk, v in data.items()}
-            outs[ae] = corpus.outcome(lambda: gm().render(**data))
-        p.evals += 1
-        off, on = outs[False], outs[True]
-        if isinstance(off, tuple) or isinstance(on, tuple):
-            ok = off == on
-        else:
-            ok = html.unescape(on) == off
-        tainted = isinstance(off, str) and any(c in off for c in "&\"'")
-        p.sig((it.kind, tainted, isinstance(off, tuple), str(off)[:20]))
-        if not ok:
-            kind = "error-class" if (isinstance(off, tuple) or isinstance(on, tuple)) else ("double-or-missing-escape")
-            p.violation(f"C16/{kind}/{it.kind}", {
-                "msg": f"{it.ident}: autoescape off -> {off!r}; autoescape on -> {on!r}; unescaped once -> "
-                       f"{html.unescape(on) if isinstance(on, str) else on!r}",
-                "script": "print(%r)\n" % {"sources": it.sources}})
-        p.sample({"item": it.ident, "off": str(off)[:80], "on": str(on)[:80]}, cap=1)
+        # async twin on every 4th shard: async macros / call blocks / loops must keep the safe status too
+        for async_ in ((False, True) if k % 4 == 0 else (False,)):
+            outs = {}
+            for ae in (False, True):
+                env, gm, data = corpus.safe_make(it, env_kwargs={"autoescape": ae, "enable_async": async_}, value=value)
+                if it.kind != "stmt":
+                    # taint every plain string value of the data and the environment globals
+                    data = {kk: (v + TAINT if isinstance(v, str) and not kk.startswith(("pv", "tv")) else v)
+                            for kk, v in data.items()}
+                if async_:
+                    outs[ae] = corpus.outcome(lambda: e4.run(gm().render_async(**data)))
+                else:
+                    outs[ae] = corpus.outcome(lambda: gm().render(**data))
+            p.evals += 1
+            off, on = outs[False], outs[True]
+            tainted = isinstance(off, str) and any(c in off for c in "&\"'")
+            p.sig((it.kind, tainted, isinstance(off, tuple), async_, str(off)[:20]))
+            if not relation_ok(off, on):
+                kind = "error-class" if (isinstance(off, tuple) or isinstance(on, tuple)) else "double-or-missing-escape"
+                p.violation(f"C16/{kind}/{it.kind}" + ("/async" if async_ else ""), {
+                    "msg": f"{it.ident} (async={async_}): autoescape off -> {off!r}; autoescape on -> {on!r}; unescaped once -> "
+                           f"{html.unescape(on) if isinstance(on, str) else on!r}",
+                    "script": "print(%r)\n" % {"sources": it.sources}})
+            p.sample({"item": it.ident, "off": str(off)[:80], "on": str(on)[:80]}, cap=1)
     return p
 
 
@@ -99,20 +107,24 @@ def family_shard(arg):
                   "base": "B[{% block blk %}b{{ x }}{% endblock %}]"}
     for cons in CONSUMERS:
         src = prelude + cons.replace("C", cexpr)
-        outs = {}
-        for ae in (False, True):
-            env = jinja2.Environment(loader=jinja2.DictLoader(dict(loader_map)), autoescape=ae)
-            data = {"x": TAINT, "y": "y" + TAINT, "tree": [TNode(TAINT, [TNode("a" + TAINT)]), TNode("b")],
-                    "cyc": jinja2.utils.Cycler(TAINT, "k")}
-            outs[ae] = corpus.outcome(lambda: env.from_string(src).render(**data))
-        p.evals += 1
-        off, on = outs[False], outs[True]
-        ok = (off == on) if (isinstance(off, tuple) or isinstance(on, tuple)) else (html.unescape(on) == off)
-        p.sig(("fam", cname, CONSUMERS.index(cons), isinstance(off, tuple)))
-        if not ok:
-            p.violation(f"C16/double-or-missing-escape/carrier-{cname}", {
-                "msg": f"{src!r}: autoescape off -> {off!r}; on -> {on!r}; unescaped once -> {html.unescape(on) if isinstance(on, str) else on!r}",
-                "script": "print(%r)\n" % src})
+        for async_ in (False, True):
+            outs = {}
+            for ae in (False, True):
+                env = jinja2.Environment(loader=jinja2.DictLoader(dict(loader_map)), autoescape=ae, enable_async=async_)
+                data = {"x": TAINT, "y": "y" + TAINT, "tree": [TNode(TAINT, [TNode("a" + TAINT)]), TNode("b")],
+                        "cyc": jinja2.utils.Cycler(TAINT, "k")}
+                if async_:
+                    outs[ae] = corpus.outcome(lambda: e4.run(env.from_string(src).render_async(**data)))
+                else:
+                    outs[ae] = corpus.outcome(lambda: env.from_string(src).render(**data))
+            p.evals += 1
+            off, on = outs[False], outs[True]
+            p.sig(("fam", cname, CONSUMERS.index(cons), isinstance(off, tuple), async_))
+            if not relation_ok(off, on):
+                p.violation(f"C16/double-or-missing-escape/carrier-{cname}" + ("/async" if async_ else ""), {
+                    "msg": f"{src!r} (async={async_}): autoescape off -> {off!r}; on -> {on!r}; unescaped once -> "
+                           f"{html.unescape(on) if isinstance(on, str) else on!r}",
+                    "script": "print(%r)\n" % src})
     p.sample({"carrier": cname, "consumers": len(CONSUMERS)}, cap=1)
     return p
 
